@@ -64,6 +64,7 @@ type taskCtx struct {
 	lastVer int
 	probes  probeCounts
 	pairs   map[string]bool // coverage: (metric set, value, neighbour, neighbour value)
+	jitter  int
 }
 
 type probeCounts struct {
@@ -130,9 +131,19 @@ type runResult struct {
 	setPairs map[string]bool
 	consumed [3]int
 	pointHit []uint32
+	raceViol *Violation // kept apart: reported after the deterministic oracles
 }
 
 func hexs(b string) string { return hex.EncodeToString([]byte(b)) }
+
+func strHash(s string) uint64 {
+	h := uint64(14695981039346656037)
+	for i := 0; i < len(s); i++ {
+		h ^= uint64(s[i])
+		h *= 1099511628211
+	}
+	return h
+}
 
 func (x *runCtx) armed(p string) bool { return x.prop == p }
 func (x *runCtx) modelOn() bool      { return x.prop != "C14" }
@@ -412,7 +423,10 @@ func (x *runCtx) execOp(tc *taskCtx, opi int, op Op) {
 		r.key = fmt.Sprintf("%d|%s|%s|%s|%s", a.Ver(), op.K, hexs(before), op.S, op.S2)
 		r.calmable = true
 	}
-	tc.recs = append(tc.recs, r)
+	if !(out.fault && page.contains(out.faultAddr)) {
+		tc.recs = append(tc.recs, r) // a fault on the protected page is O2(c)'s verdict, not a result
+	}
+	x.sim.MixResult(strHash(r.key) ^ strHash(r.res)*31)
 
 	// vault: strings and errors handed out by the library must never change
 	if out.str != "" {
@@ -699,7 +713,11 @@ func runPlan(p *Plan, trace bool, collectCover bool) *runResult {
 		}
 		x.tasks = append(x.tasks, tc)
 		ops := p.Tasks[ti]
+		jit := p.Jitter * (ti + 1)
 		sim.AddTask(func() {
+			for j := 0; j < jit; j++ {
+				tc.jitter++
+			}
 			for oi, op := range ops {
 				rt.SchedPoint('o', oi)
 				x.execOp(tc, oi, op)
@@ -735,7 +753,7 @@ func runPlan(p *Plan, trace bool, collectCover bool) *runResult {
 	c14 := p.Prop == "C14"
 	if c14 {
 		if n := rt.RaceErrors() - races0; n > 0 {
-			res.Viol = append(res.Viol, Violation{Prop: "C14", Class: "race", Task: -1, Op: -1, Detail: fmt.Sprintf("%d data race report(s) from the happens-before monitor during this run", n), NeedsRun: -1})
+			res.raceViol = &Violation{Prop: "C14", Class: "race", Task: -1, Op: -1, Detail: fmt.Sprintf("%d data race report(s) from the happens-before monitor during this run", n), NeedsRun: -1}
 		}
 		switch sim.AbortWhy {
 		case "deadlock":
